@@ -96,4 +96,12 @@ def finish(ctx, level, coverage, assumptions):
     os.makedirs(EVID, exist_ok=True)
     with open(os.path.join(EVID, "%s.json" % ctx.prop), "w") as fh:
         json.dump(ev, fh, indent=1, default=str)
-    return 1 if real else 0
+    if real:
+        return 1
+    # machinery guard (DESIGN 7b): a run that examined nothing, or dropped more than 20 % of its
+    # scenarios, proves nothing and must not look like a pass
+    examined = coverage.get("traces_validated_against_impl", coverage.get("programs", coverage.get("evaluations", 1)))
+    if not seen_known and (examined == 0 or ctx.dropped > 0.2 * max(1, examined + ctx.dropped)):
+        print("MACHINERY-FAILURE property=%s examined=%s dropped=%s" % (ctx.prop, examined, ctx.dropped), file=sys.stderr)
+        return 2
+    return 0
